@@ -455,7 +455,7 @@ func (c *c12Run) run(f []string) string {
 		conn.Close()
 		c.tags["client-queue-exists"] = true
 		return "c=init-error sent="
-	case len(f) >= 2 && f[0] == "srv" && (f[1] == "eof" || f[1] == "silent"):
+	case len(f) >= 2 && f[0] == "srv" && (f[1] == "eof" || f[1] == "silent" || f[1] == "deaf"):
 		c.base, c.gor = c12CountFds(), runtime.NumGoroutine()
 		conn, raw, err := c12SocketPair()
 		if err != nil {
@@ -510,16 +510,24 @@ func (c *c12Run) drive(fk *c12Fake, ch chan c12Res, msgs []string, tail string, 
 	if role == "c" {
 		poll(40 * time.Millisecond)
 	}
-	for _, m := range msgs {
+	if tail == "deaf" && len(msgs) == 0 {
+		syscall.Shutdown(fk.fd, syscall.SHUT_RD)
+	}
+	for i, m := range msgs {
 		if done {
 			break
+		}
+		if tail == "deaf" && i == len(msgs)-1 {
+			// the peer stops receiving just before its last message: the real end's reply to it cannot be written (EPIPE)
+			syscall.Shutdown(fk.fd, syscall.SHUT_RD)
+			c.tags["peer-deaf"] = true
 		}
 		if err := c.fakeSend(fk.fd, m, own); err != nil {
 			break
 		}
 		poll(40 * time.Millisecond)
 	}
-	if tail == "eof" {
+	if tail == "eof" || tail == "deaf" {
 		poll(20 * time.Millisecond)
 		syscall.Shutdown(fk.fd, syscall.SHUT_WR)
 		c.tags["peer-closes"] = true
@@ -657,6 +665,11 @@ func c12Gen(r *rand.Rand, tier string, idx int) []string {
 	}
 	if r.Intn(12) == 0 {
 		return []string{"srv " + tail() + " exver:3 mmemfdx:3 fds:2"}
+	}
+	if r.Intn(10) == 0 {
+		// the client hands over its memory and stops receiving (dies) before the server's acknowledgement
+		return []string{[]string{"srv deaf exver:3 mmemfd:3 fds:1", "srv deaf exver:3 mfile:3:1", "srv deaf exver:3 mmemfd:3", "srv deaf exver:3",
+			strings.TrimSpace("srv deaf " + strings.Join(mutate(clientMemfd), " "))}[r.Intn(5)]}
 	}
 	if r.Intn(25) == 0 {
 		return []string{"cliq file"}
